@@ -616,6 +616,7 @@ func instrDominates(a, b ssa.Instruction) bool {
 // index idx (a call to fmt.Errorf / errors.New / a MakeInterface of a non-nil value / a value known
 // non-nil by a dominating `!= nil` fact)?
 func definitelyNonNilErr(v ssa.Value, at *ssa.BasicBlock) bool {
+	v = resolveSpill(v)
 	v0 := v
 	switch x := v.(type) {
 	case *ssa.Call:
@@ -688,4 +689,39 @@ func neverReturns(fn *ssa.Function, memo map[*ssa.Function]int) bool {
 		return true
 	}
 	return false
+}
+
+// resolveSpill: functions with defer spill their results into allocs (`*t1 = v; rundefers;
+// t = *t1; return t`). If v is a load of an Alloc and a Store to that alloc precedes the load in
+// the same block (with no call in between other than rundefers), return the stored value.
+func resolveSpill(v ssa.Value) ssa.Value {
+	u, ok := v.(*ssa.UnOp)
+	if !ok || u.Op != token.MUL {
+		return v
+	}
+	a, ok := u.X.(*ssa.Alloc)
+	if !ok {
+		return v
+	}
+	b := u.Block()
+	k := instrIndex(u)
+	for i := k - 1; i >= 0; i-- {
+		switch x := b.Instrs[i].(type) {
+		case *ssa.Store:
+			if x.Addr == a {
+				return x.Val
+			}
+		case *ssa.RunDefers:
+			// deferred functions could assign a named result through a captured variable; only
+			// treat the alloc as unaffected when no closure captures it
+			for _, ref := range *a.Referrers() {
+				if _, isMC := ref.(*ssa.MakeClosure); isMC {
+					return v
+				}
+			}
+		case ssa.CallInstruction:
+			return v
+		}
+	}
+	return v
 }
